@@ -901,6 +901,98 @@ def sc_ctrait_public_setters(rng):
 
 
 
+def sc_finalizers_collect(rng):
+    """objects with finalizers (``__del__``, weakref callbacks) that run a collection or re-enter
+    the API, owned ONLY by something the extension is tearing down by reference count: a CTrait
+    (default value in its handler, closure handlers in its notifier list), an object's instance
+    trait dictionary, its ``__dict__`` values, container items"""
+    import weakref as _wr
+    keep = []
+
+    class Fin:
+        def __init__(self, act):
+            self.act = act
+
+        def __del__(self):
+            try:
+                self.act()
+            except Exception:
+                pass
+
+    def acts(h=None):
+        a = [gc.collect, lambda: gc.collect(0), lambda: [[] for _ in range(2000)]]
+        if h is not None:
+            r = _wr.ref(h)
+            a += [lambda: r() is not None and r().trait_names(),
+                  lambda: r() is not None and r().add_trait("late", Int()),
+                  lambda: r() is not None and setattr(r(), "value", 3)]
+        return a
+
+    def closure_handler(fin):
+        def cb(new):
+            return fin
+        return cb
+
+    class Holder(HasTraits):
+        value = Any
+        items = List(Any)
+
+    thr = gc.get_threshold()
+    try:
+        for k in range(25):
+            if rng.random() < 0.3:
+                gc.set_threshold(1, 1, 1)
+            else:
+                gc.set_threshold(*thr)
+            h = Holder()
+            fin = Fin(rng.choice(acts(h)))
+            kind = rng.randrange(9)
+            try:
+                if kind == 0:            # instance trait whose handler owns the default value
+                    h.add_trait("res", Any(fin)); del fin
+                    gc.collect(); del h
+                elif kind == 1:          # notifier list of an instance trait owns a closure handler
+                    h.add_trait("v2", Any(0)); h.on_trait_change(closure_handler(fin), "v2"); del fin
+                    h.v2 = 1; gc.collect(); h.remove_trait("v2")
+                elif kind == 2:          # class-trait clone created by a listener dies with the object
+                    h.on_trait_change(closure_handler(fin), "value"); del fin
+                    h.value = 1; del h
+                elif kind == 3:          # observe handler closure
+                    cb = closure_handler(fin); del fin
+                    h.observe(lambda e, cb=cb: None, "value"); del cb
+                    h.value = 2; h = None
+                elif kind == 4:          # the stored value itself, replaced / deleted / object dies
+                    h.value = fin; del fin
+                    rng.choice([lambda: setattr(h, "value", 1), lambda: delattr(h, "value"),
+                                lambda: h.__dict__.clear(), lambda: None])()
+                    del h
+                elif kind == 5:          # container items
+                    h.items = [fin, 1]; del fin
+                    rng.choice([lambda: h.items.pop(0), lambda: h.items.clear(), lambda: setattr(h, "items", []),
+                                lambda: h.items.__setitem__(slice(None), [2])])()
+                elif kind == 6:          # re-definition: add_trait over a trait whose default owns the finalizer
+                    h.add_trait("res", Any(fin)); del fin
+                    h.add_trait("res", Int(2)); h.remove_trait("res")
+                elif kind == 7:          # a trait definition object on its own
+                    t = Any(fin).as_ctrait(); del fin
+                    t2 = t.clone(t) if hasattr(t, "clone") and False else copy.copy(t)
+                    del t; del t2
+                else:                    # weakref callback instead of __del__
+                    class V:
+                        pass
+                    v = V()
+                    keep.append(_wr.ref(v, lambda r, a=fin.act: a()))
+                    fin.act = lambda: None
+                    h.add_trait("res", Any(v)); del v
+                    del h
+            except Exception:
+                pass
+            gc.collect()
+    finally:
+        gc.set_threshold(*thr)
+
+
+
 SCENARIOS = [
     sc_handlers_mutate, sc_default_removes_trait, sc_default_method_removes_trait,
     sc_handler_removes_trait, sc_post_setattr_removes, sc_validator_removes_trait,
@@ -909,7 +1001,7 @@ SCENARIOS = [
     sc_gc_threshold, sc_trait_defs_roundtrip, sc_items_event, sc_huge, sc_getattr_hooks,
     sc_observe_mutating_handlers, sc_default_attribute_error_warning, sc_anytrait_handlers_mutate,
     sc_delegate_dropped_during_access, sc_plain_property, sc_no_dict_instance,
-    sc_items_and_python_names, sc_ctrait_public_setters,
+    sc_items_and_python_names, sc_ctrait_public_setters, sc_finalizers_collect,
 ]
 
 
@@ -1431,6 +1523,13 @@ def phase_ref(ctx):
     obsapi.push_exception_handler(handler=lambda e: None, reraise_exceptions=False)
     N = 200
     exps = _mk_ref_experiments()
+    # second table (written from the coverage report of the first one)
+    from vf.monitors import _c18_ref_more as more
+    more.install_adaptation()
+    exps += more.make((RefObj, lambda k: 10 ** 20 + k, lambda k: 1000.5 + k,
+                       lambda k: "sentinel-%d-%s" % (k, "x" * 30),
+                       lambda k: (10 ** 20 + k, "t%d%s" % (k, "y" * 30)),
+                       lambda k: [10 ** 20 + k, 10 ** 21 + k]))
     for idx, (label, setup, op, sf) in enumerate(exps):
         if not ctx.mine(idx):
             continue
